@@ -71,7 +71,12 @@ def _reads(ss, attr):
     return out
 
 
-def c20_1(ctx, ss):
+READ_PATH = ("AmplitudeChain.from_matched_line", "AmplitudeChain.expand_lines", "AmplitudeChain.read_ampgen")
+
+
+def c20_1(ctx, ss, rid=lambda r: r):
+    """rid maps the rule ids used here to the caller's (C19.8 runs the same clauses: the resonance variables that
+    both generators declare are those of cls.all_particles, which must be this input's only)."""
     writes = _class_state_writes(ss)
     ctx.count("class_state_attrs", len(writes))
     ff, flow = fn(ss, ACHAIN, R)
@@ -86,16 +91,20 @@ def c20_1(ctx, ss):
     if "cls.from_matched_line" not in calls:
         raise AnchorMissing("read_ampgen: call of cls.from_matched_line not found")
     tracked = {"all_particles": "set", "final_particles": "set", "cartesian": "flag"}
+    # any further class-level attribute written while reading (a cache, a registry) is held to the same discipline
+    for attr_, ws_ in writes.items():
+        if attr_ not in tracked and attr_ not in ("pars", "consts") and any(w[0].qualname in READ_PATH for w in ws_):
+            tracked[attr_] = "any"
     for attr, kind in tracked.items():
         ws = writes.get(attr, [])
         rs = _reads(ss, attr)
-        written_on_read_path = [w for w in ws if w[0].qualname in ("AmplitudeChain.from_matched_line", "AmplitudeChain.expand_lines", R)]
+        written_on_read_path = [w for w in ws if w[0].qualname in READ_PATH]
         k = f"{ACHAIN}:{R} :: reset-class-state" if attr != "final_particles" else f"{ACHAIN}:{R} :: reset-class-state:final_particles"
         if not written_on_read_path:
-            ctx.holds("C20.1", f"{ACHAIN}:AmplitudeChain.{attr} :: tracked", f"src/decaylanguage/{ACHAIN}", f"{attr}: no longer written on the read path", 1)
+            ctx.holds(rid("C20.1"), f"{ACHAIN}:AmplitudeChain.{attr} :: tracked", f"src/decaylanguage/{ACHAIN}", f"{attr}: no longer written on the read path", 1)
             continue
         readers = sorted({f.qualname for f, _ in rs if f.qualname != R})
-        ctx.holds("C20.1", f"{ACHAIN}:AmplitudeChain.{attr} :: tracked", f"src/decaylanguage/{ACHAIN}",
+        ctx.holds(rid("C20.1"), f"{ACHAIN}:AmplitudeChain.{attr} :: tracked", f"src/decaylanguage/{ACHAIN}",
                   f"{attr}: written by {sorted({w[0].qualname for w in ws})}, read by {readers[:5]}", len(ws) + len(rs))
         if attr == "final_particles" and not readers:
             ctx.notes.append("final_particles is written but never read (information only)")
@@ -104,7 +113,8 @@ def c20_1(ctx, ss):
         for st in pf.iter_stmts(ff.node.body):
             if isinstance(st, ast.Assign) and any(isinstance(t, ast.Attribute) and t.attr == attr and txt(t.value) in ("cls", "AmplitudeChain") for t in st.targets):
                 v = st.value
-                fresh = (kind == "set" and txt(v) in ("set()", "frozenset()")) or (kind == "flag" and isinstance(v, ast.Constant) and v.value is False)
+                fresh = (kind == "set" and txt(v) in ("set()", "frozenset()")) or (kind == "flag" and isinstance(v, ast.Constant) and v.value is False) \
+                    or (kind == "any" and (txt(v) in ("set()", "dict()", "list()", "{}", "[]") or isinstance(v, ast.Constant)))
                 if fresh and not [c for c in guards.path_conditions(ff.node, st) if c[0] in ("if", "exc", "loop")]:
                     resets.append(st)
             if isinstance(st, ast.Expr) and isinstance(st.value, ast.Call) and txt(st.value.func) in (f"cls.{attr}.clear",) and kind == "set":
@@ -117,27 +127,27 @@ def c20_1(ctx, ss):
             if cfg.dominates(n, first_use) and cfg.must_pass({n}):
                 ok = True
         if ok:
-            ctx.holds("C20.2", k, where(ff, resets[0]), f"{attr} is re-initialised at the start of every read, before any line is built", 2)
+            ctx.holds(rid("C20.2"), k, where(ff, resets[0]), f"{attr} is re-initialised at the start of every read, before any line is built", 2)
         else:
             extra = ""
             if attr == "cartesian":
                 extra = " (the switch is only written when the option is present, so a file without it inherits the previous file's convention)"
-            ctx.violation("C20.2", k, where(ff, ff.node),
+            ctx.violation(rid("C20.2"), k, where(ff, ff.node),
                           f"class-level `{attr}` is written while reading and read afterwards, but read_ampgen never re-initialises it before use: "
                           f"what an earlier read (by any reader class) left there leaks into this one{extra}")
         # C20.3: rebind through cls
         for st in resets:
             tg = [t for t in getattr(st, "targets", []) if isinstance(t, ast.Attribute)]
             if tg and txt(tg[0].value) != "cls":
-                ctx.violation("C20.3", k + " :: via-cls", where(ff, st),
+                ctx.violation(rid("C20.3"), k + " :: via-cls", where(ff, st),
                               f"`{txt(st)}` resets the attribute on the base class only: a reader subclass that already got its own `{attr}` (through `cls.{attr} = …` / `cls.{attr} |= …` in an earlier read) keeps the old value")
             elif tg:
-                ctx.holds("C20.3", k + " :: via-cls", where(ff, st), f"`{txt(st)}` rebinds through cls", 1)
+                ctx.holds(rid("C20.3"), k + " :: via-cls", where(ff, st), f"`{txt(st)}` rebinds through cls", 1)
     # the additions go through cls / the instance's class as well
     fm, fmflow = fn(ss, ACHAIN, "AmplitudeChain.from_matched_line")
     adds = [n for n in pf.walk_no_nested(fm.node) if isinstance(n, ast.AugAssign) and isinstance(n.target, ast.Attribute) and n.target.attr == "all_particles"]
     ok = bool(adds) and all(txt(a.target.value) == "cls" for a in adds)
-    (ctx.holds if ok else ctx.violation)("C20.3", ckey(fm, None, "adds-via-cls"), where(fm, adds[0] if adds else fm.node),
+    (ctx.holds if ok else ctx.violation)(rid("C20.3"), ckey(fm, None, "adds-via-cls"), where(fm, adds[0] if adds else fm.node),
                                           "particles are added to cls.all_particles (the set the reset installed)" if ok else "particles are not added through cls.all_particles")
 
 
@@ -208,6 +218,8 @@ def c20_5(ctx, ss):
     ef = effects(ss)
     n = 0
     allowed_attrs = {"all_particles", "final_particles", "cartesian", "pars", "consts"}
+    # attributes written on the read path are judged by C20.1/C20.2 (must be re-initialised through cls at every read)
+    allowed_attrs |= {a for a, ws_ in _class_state_writes(ss).items() if any(w[0].qualname in READ_PATH for w in ws_)}
     for k, ff in ef.cg.funcs.items():
         if not ff.module.startswith("modeling/"):
             continue
@@ -221,6 +233,14 @@ def c20_5(ctx, ss):
                     continue
                 ctx.violation("C20.5", ckey(ff, None, f"module-state:{how[:40]}"), where(ff, w.node),
                               f"{ff.qualname} writes module-level state ({how} on {r[1]}): results depend on earlier calls")
+            elif r and r[0] == "state" and (r[1].startswith("cls.") or r[1].startswith("self.__class__.") or r[1].startswith("type(self).")):
+                attr = r[1].split(".")[-1] if not r[1].startswith("self.__class__.") else r[1][len("self.__class__."):].split(".")[0]
+                attr = r[1].split(".", 1)[1].split(".")[0] if r[1].startswith("cls.") else attr
+                if attr in allowed_attrs:
+                    continue
+                ctx.violation("C20.5", ckey(ff, None, f"class-state:{attr}"), where(ff, w.node),
+                              f"{ff.qualname} writes class-level state `{r[1]}` ({w.how}) that no read re-initialises: it is shared by every reader class and "
+                              "survives from one read to the next, so results depend on what was read or converted earlier")
         for g in [x for x in pf.walk_no_nested(ff.node) if isinstance(x, ast.Global)]:
             ctx.violation("C20.5", ckey(ff, None, "global-stmt"), where(ff, g), f"{ff.qualname} declares `global {', '.join(g.names)}`")
     ctx.count("write_sites", n)
